@@ -62,7 +62,7 @@ func (fr *Frame) execInstr(in ssa.Instruction, st *State, r string) {
 	case *ssa.Alloc:
 		elem := x.Type().Underlying().(*types.Pointer).Elem()
 		ref := vc.allocRef(st, x.Name())
-		vc.noteAllocType(fr.l(), ref, elem)
+		vc.noteAllocType(fr.l(), ref, elem, r)
 		if fr.l().flatOK(elem) {
 			seen := map[Sort]bool{}
 			for _, s := range fr.l().layout(elem) {
@@ -90,7 +90,7 @@ func (fr *Frame) execInstr(in ssa.Instruction, st *State, r string) {
 		cp := fr.val(x.Cap)[0]
 		fr.safetyObl("makeslice", r, sAnd(app("<=", "0", ln), app("<=", ln, cp)), x.Pos(), "make: 0 <= len <= cap")
 		ref := vc.allocRef(st, x.Name())
-		vc.noteAllocType(fr.l(), ref, elem)
+		vc.noteAllocType(fr.l(), ref, elem, r)
 		if fr.l().flatOK(elem) {
 			seen := map[Sort]bool{}
 			for _, s := range fr.l().layout(elem) {
